@@ -1,0 +1,117 @@
+//go:build verif
+
+package lossy
+
+// Verification hooks for the first-partition header (property C06, model
+// Webp.Impl.VP8HeaderBytes). Compiled only with the build tag "verif"; they add
+// no behaviour of their own.
+
+// VerifHeaderIn is the encoder state emitPartition0 writes the header from.
+type VerifHeaderIn struct {
+	Seg       SegmentHeader
+	SegProbs  [MBFeatureTreeProbs]uint8
+	Filter    FilterHeader
+	NumParts  int
+	BaseQ     int
+	DQ        [5]int // y1dc, y2dc, y2ac, uvdc, uvac
+	Coef      [NumTypes * NumBands * NumCTX * NumProbas]uint8
+	NumSkip   int
+	SkipProba uint8
+}
+
+// VerifEmitHeader runs the real emitPartition0 (writeSegmentHeader,
+// writeFilterHeader, partition count, writeQuantParams, writeCoeffProba, skip
+// flag; writeMBModes over zero macroblocks) on an encoder carrying the given
+// header state and returns the bytes of partition 0.
+func VerifEmitHeader(in *VerifHeaderIn) []byte {
+	enc := &VP8Encoder{}
+	enc.segmentHdr = in.Seg
+	enc.proba.Segments = in.SegProbs
+	enc.filterHdr = in.Filter
+	enc.numParts = in.NumParts
+	enc.dqm[0].Quant = in.BaseQ
+	enc.dqY1DC, enc.dqY2DC, enc.dqY2AC, enc.dqUVDC, enc.dqUVAC = in.DQ[0], in.DQ[1], in.DQ[2], in.DQ[3], in.DQ[4]
+	i := 0
+	for t := 0; t < NumTypes; t++ {
+		for b := 0; b < NumBands; b++ {
+			for c := 0; c < NumCTX; c++ {
+				for p := 0; p < NumProbas; p++ {
+					enc.proba.Bands[t][b].Probas[c][p] = in.Coef[i]
+					i++
+				}
+			}
+		}
+	}
+	enc.numSkip = in.NumSkip
+	enc.skipProba = in.SkipProba
+	return enc.emitPartition0()
+}
+
+// VerifHeaderState is what a Decoder holds after parseHeaders.
+type VerifHeaderState struct {
+	Err              string
+	Colorspace       uint8
+	ClampType        uint8
+	Seg              SegmentHeader
+	SegProbs         [MBFeatureTreeProbs]uint8
+	Filter           FilterHeader
+	FilterType       int
+	NumPartsMinusOne uint32
+	Dqm              [NumMBSegments][6]int
+	Coef             [NumTypes * NumBands * NumCTX * NumProbas]uint8
+	UseSkipProba     bool
+	SkipP            uint8
+	EOF              bool
+}
+
+// VerifParseHeaders runs the real parseHeaders on a VP8 payload with a decoder
+// whose header state is what acquireDecoder leaves (all zero).
+func VerifParseHeaders(payload []byte) VerifHeaderState {
+	dec := &Decoder{}
+	var st VerifHeaderState
+	if err := dec.parseHeaders(payload); err != nil {
+		st.Err = err.Error()
+		return st
+	}
+	st.Colorspace, st.ClampType = dec.picHdr.Colorspace, dec.picHdr.ClampType
+	st.Seg = dec.segHdr
+	st.SegProbs = dec.proba.Segments
+	st.Filter = dec.filterHdr
+	st.FilterType = dec.filterType
+	st.NumPartsMinusOne = uint32(dec.numPartsMinusOne)
+	for s := 0; s < NumMBSegments; s++ {
+		st.Dqm[s] = verifMat(&dec.dqm[s])
+	}
+	i := 0
+	for t := 0; t < NumTypes; t++ {
+		for b := 0; b < NumBands; b++ {
+			for c := 0; c < NumCTX; c++ {
+				for p := 0; p < NumProbas; p++ {
+					st.Coef[i] = dec.proba.Bands[t][b].Probas[c][p]
+					i++
+				}
+			}
+		}
+	}
+	st.UseSkipProba = dec.useSkipProba
+	st.SkipP = dec.skipP
+	st.EOF = dec.br.EOF()
+	return st
+}
+
+// VerifDefaultCoefProbas returns CoeffsProba0 in the loop order of
+// writeCoeffProba / parseProba.
+func VerifDefaultCoefProbas() (out [NumTypes * NumBands * NumCTX * NumProbas]uint8) {
+	i := 0
+	for t := 0; t < NumTypes; t++ {
+		for b := 0; b < NumBands; b++ {
+			for c := 0; c < NumCTX; c++ {
+				for p := 0; p < NumProbas; p++ {
+					out[i] = CoeffsProba0[t][b][c][p]
+					i++
+				}
+			}
+		}
+	}
+	return
+}
